@@ -655,6 +655,13 @@ def reference_oracle(case, impl):
                 continue
             d = _vm(a, b, -1)
             if any(g < 0 and g != -8 for g in d):
+                # different dimensions (e.g. new base units two stores declared under one name): no factor, not equivalent
+                if op[0] == 'cf':
+                    bad.append(('get_conversion_factor(%r, %r) returns %r although the definitions give the two units different '
+                                'dimensions' % (op[1], op[2], r[1]), {'from': op[1], 'to': op[2]}))
+                elif r[1]:
+                    bad.append(('is_equivalent(%r, %r) is True although the definitions give the two units different dimensions'
+                                % (op[1], op[2]), {'a': op[1], 'b': op[2]}))
                 continue
             want = scale(d)
             exact_one = not any(g > 0 for g in d)
